@@ -126,18 +126,19 @@ end
 def Node.getPaths : Node → List Bytes
   | .mk n _ kids => if kids.isEmpty then [n] else Node.pathsUnderList n kids
 
-/-! ### lookup (`GetNode`, repaired: linear scan by name; a leaf with components left is a miss) -/
+/-! ### lookup (`GetNode`, repaired: linear scan by name; a leaf with components left is skipped) -/
 
 def getNodeAux : Nat → List Node → Bytes → Option Node
   | 0, _, _ => none
   | fuel + 1, children, path =>
     let sp := Bytes.cut1 47 path
-    match children.find? (fun c => c.name == sp.1) with
-    | none => none
-    | some node =>
-      match sp.2 with
-      | none => some node
-      | some rest => if node.kids.isEmpty then none else getNodeAux fuel node.kids rest
+    match sp.2 with
+    | none => children.find? (fun c => c.name == sp.1)
+    | some rest =>
+      -- a file of that name cannot contain the rest of the path: the first *directory* of that name is entered
+      match children.find? (fun c => c.name == sp.1 && !c.kids.isEmpty) with
+      | none => none
+      | some node => getNodeAux fuel node.kids rest
 
 def getNode (children : List Node) (path : Bytes) : Option Node :=
   getNodeAux (path.length + 1) children path
